@@ -447,7 +447,7 @@ def crate_functions(target_dir, harness_names):
                 d = json.load(open(os.path.join(root, f)))
             except Exception:
                 continue
-            mine = sorted({v for v in d.values() if isinstance(v, str) and "acpi_tables::" in v
+            mine = sorted({v for v in d.values() if isinstance(v, str) and (v.startswith("acpi_tables::") or v.startswith("<acpi_tables::"))
                            and "acpi_verif" not in v and "{closure" not in v and "common::" not in v
                            and "FatPtr" not in v and "vtable" not in v and "drop_glue" not in v})
             per[short] = len(mine)
